@@ -46,6 +46,10 @@ A2 (dual solution and its signs; MOSEK manual "Duality for semidefinite optimiza
    test_proof_consistency, test_recover_dual_values) expects: with these signs
         objective - tau  =  sum_rows y_row * (row expression)  -  <(-Sbar_0), G>  -  sum_k <(-Sbar_k), M_k>
    holds identically, y >= 0 on inequalities, -Sbar PSD.
+   Entry rows of an LMI (e_ij - M[i][j] == -alpha): by the same dual equation Sbar_M = - sum_ij y_ij * coupling_ij
+   = sym(y), so PEPit's `entries_dual_variable_value = -y[first:first+n*n]` has symmetric part -Sbar_M, the reported
+   dual.  The SIGN of y on these rows is taken from MOSEK's documented dual equation as implemented here, not from
+   the real solver (absent).
    `optimize` obtains y from cvxpy's multipliers (cvxpy's convention, checked at import time of the
    harness on a 2-variable LP: for Maximize, `lhs <= u` and `lhs == b` give y = dual_value, `l <= lhs`
    gives y = -dual_value; for Minimize all signs flip) and then DEFINES
@@ -64,7 +68,7 @@ __version__ = "0.standin"
 LOG = []             # every call of every Env / Task since the last reset(): (obj_id, name, args, ret)
 OPTS = dict(eps_abs=1e-9, eps_rel=1e-9, max_iters=200000)    # SCS options used by Task.optimize
 LAST_TASK = [None]
-SCRIPTED = [False]      # harness switch: optimize() stores a scripted solution (xx = 1, 2, 3, ...; barx = dyadic PSD; y, bars = 0)
+SCRIPTED = [False]      # harness switch: optimize() stores a scripted solution (xx = 1, 2, 3, ...; barx = dyadic PSD; y, bars = distinct dyadic numbers)
 
 
 def reset():
@@ -159,6 +163,11 @@ def _scripted_psd(d, salt):
     """a dense dyadic PSD matrix B B^T (harness switch SCRIPTED only), different at every optimize"""
     B = np.array([[((3 * i + 5 * j + salt) % 7 - 3) / 4.0 for j in range(d)] for i in range(d)]).reshape(d, d)
     return B @ B.T
+
+
+def _scripted_sym(d, j):
+    """a dyadic symmetric matrix, different for every bar variable (harness switch SCRIPTED only)"""
+    return np.array([[((a + 1) * (b + 1) + 2 * j + abs(a - b)) / 8.0 for b in range(d)] for a in range(d)]).reshape(d, d)
 
 
 class Env(object):
@@ -399,9 +408,10 @@ class Task(object):
         if SCRIPTED[0]:
             self.diagnostics = dict(status="scripted")
             self.sol = dict(prosta=prosta.prim_and_dual_feas, solsta=solsta.optimal, obj=0.0,
-                            xx=np.arange(1, nvar + 1, dtype=float), y=np.zeros(ncon),
+                            xx=np.arange(1, nvar + 1, dtype=float),
+                            y=np.array([(3 * i + 1) / 16.0 for i in range(ncon)]),
                             barx=[_scripted_psd(d, len(self.calls)) for d in self.barvar],
-                            bars=[np.zeros((d, d)) for d in self.barvar])
+                            bars=[_scripted_sym(d, j) for j, d in enumerate(self.barvar)])
             return rescode.ok
         import cvxpy as cp
         maximize = (self.sense is objsense.maximize)
@@ -519,7 +529,9 @@ class Task(object):
         return self._tril(s["barx"][j])
 
     def getbarsj(self, whichsol, j):
-        self._rec("getbarsj", [whichsol, j])
+        self._rec("getbarsj", [whichsol, j],
+                  self._tril(self.sol["bars"][j]) if self.sol is not None and isinstance(j, int)
+                  and 0 <= j < len(self.barvar) else None)
         s = self._need_sol(whichsol)
         j = _idx(j, "getbarsj(j)")
         if not 0 <= j < len(self.barvar):
@@ -532,7 +544,7 @@ class Task(object):
         return [float(v) for v in self._need_sol(whichsol)["xx"]]
 
     def gety(self, whichsol):
-        self._rec("gety", [whichsol])
+        self._rec("gety", [whichsol], [float(v) for v in self.sol["y"]] if self.sol is not None else None)
         return [float(v) for v in self._need_sol(whichsol)["y"]]
 
     def getprosta(self, whichsol):
